@@ -91,16 +91,33 @@ def ufShared (s : RState) (f clientId : String) : List (String × SharedGroup) :
       let g' := g.removeClient clientId
       if g'.clients.isEmpty then aremove gname s.shared else ainsert gname g' s.shared
 
-def ufConn (c : Conn) (f : String) : Conn :=
+/-- `turn_moved` after the client left the group of `f`: when the group stays and its turn passed
+    to another member, the index of the group's log is appended -/
+def ufTurnMoved (s : RState) (f clientId : String) : List Nat :=
+  match extractGroup f with
+  | none => s.turnMoved
+  | some (gname, path) =>
+    match alookup gname s.shared with
+    | none => s.turnMoved
+    | some g =>
+      let g' := g.removeClient clientId
+      if g'.clients.isEmpty then s.turnMoved
+      else s.turnMoved ++ (if g'.current != g.current then (s.datalog.filterIdx? path).toList else [])
+
+/-- the connection after `f` was unsubscribed; `d`: the datalog (the window forgets the cursors of
+    the filter's log unless another subscription of the connection still reads it, `unsubOut`) -/
+def ufConn (d : DataLog) (c : Conn) (f : String) : Conn :=
   { c with subscriptions := c.subscriptions.filter (· ≠ f),
            brokerAliases := c.brokerAliases.map (fun b => BrokerAliases.removeAlias b f),
            subscriptionIds := aremove f c.subscriptionIds,
-           tracker := { c.tracker with requests := c.tracker.requests.filter (·.filter ≠ f) } }
+           tracker := { c.tracker with requests := c.tracker.requests.filter (·.filter ≠ f) },
+           out := unsubOut d (c.subscriptions.filter (· ≠ f)) c.out f }
 
 def ufState (s : RState) (id : Nat) (ids : List Nat) (c : Conn) (f : String) : RState :=
   let s1 : RState := { s with subscriptionMap := ainsert f (ids.filter (· ≠ id)) s.subscriptionMap,
-                               shared := ufShared s f c.clientId }
-  let s2 := setConn s1 id (ufConn c f)
+                               shared := ufShared s f c.clientId,
+                               turnMoved := ufTurnMoved s f c.clientId }
+  let s2 := setConn s1 id (ufConn s.datalog c f)
   ({ s2 with datalog := removeWaiterFor s2.datalog id f,
              notifications := s2.notifications.filter (fun n => !(n.1 == id && n.2.filter == f)) } : RState).g
     (.unsubscribed id f)
@@ -132,7 +149,7 @@ theorem unsubscribeFilters_cons (s : RState) (id : Nat) (f : String) (rest : Lis
         simp only []
         split
         · rfl
-        · unfold ufState ufShared
+        · unfold ufState ufShared ufTurnMoved
           cases extractGroup f with
           | none => rfl
           | some gp =>
@@ -140,7 +157,9 @@ theorem unsubscribeFilters_cons (s : RState) (id : Nat) (f : String) (rest : Lis
             simp only []
             cases alookup gname s.shared with
             | none => rfl
-            | some g => rfl
+            | some g =>
+              simp only []
+              split <;> rfl
 
 /-! ### `forward_device_data` -/
 
@@ -172,10 +191,10 @@ def fdSkip (c : Conn) : Option SharedGroup → Bool
   | none => false
 
 def fdAliases (c : Conn) (filter : String) : Option BrokerAliases × Option Nat :=
-  match c.brokerAliases.bind (fun b => alookup filter b.aliases) with
+  match (aliasesFor c filter).bind (fun b => alookup filter b.aliases) with
   | some a => (c.brokerAliases, some a)
-  | none => match c.brokerAliases with
-    | none => (none, none)
+  | none => match aliasesFor c filter with
+    | none => (c.brokerAliases, none)
     | some b => let (b', a) := b.setNew filter; (some b', a)
 
 def fdGroupUpd (s : RState) (req : DataRequest) (grp : Option SharedGroup) : M RState :=
@@ -192,7 +211,7 @@ def fdGroupUpd (s : RState) (req : DataRequest) (grp : Option SharedGroup) : M R
 /-- the forwards of one sweep, and the window / notifications they produce -/
 def fdFwds (c : Conn) (req : DataRequest) (publishes : List (Pub × Option Cursor)) : List (Pub × Option Cursor) :=
   publishes.map (fun pc => (mkForward req.qos (fdAliases c req.filter).2
-    (c.brokerAliases.bind (fun b => alookup req.filter b.aliases)).isSome
+    ((aliasesFor c req.filter).bind (fun b => alookup req.filter b.aliases)).isSome
     (alookup req.filter c.subscriptionIds) pc.1, pc.2))
 
 def fdOut (c : Conn) (req : DataRequest) (publishes : List (Pub × Option Cursor)) : Outgoing × List Notif :=
@@ -262,28 +281,218 @@ def hdRemoved (s : RState) (id : Nat) (c : Conn) : RState :=
   { s with subscriptionMap := s.subscriptionMap.map (fun (p : String × List Nat) =>
       if c.subscriptions.contains p.1 then (p.1, p.2.filter (· ≠ id)) else p) }
 
-def hdSaved (s1 : RState) (c : Conn) (inflightReqs : List DataRequest) : List (String × SharedGroup) × List DataRequest :=
-  rewindRequests s1.shared (retransmissionMap c.out.inflight []) (c.tracker.requests ++ inflightReqs) []
+/-- `atGroupCursor` changes the cursor only -/
+theorem atGroupCursor_fields (sh : List (String × SharedGroup)) (r : DataRequest) :
+    (atGroupCursor sh r).filter = r.filter ∧ (atGroupCursor sh r).filterIdx = r.filterIdx ∧
+    (atGroupCursor sh r).qos = r.qos ∧ (atGroupCursor sh r).group = r.group ∧
+    (atGroupCursor sh r).forwardRetained = r.forwardRetained := by
+  unfold atGroupCursor; split <;> exact ⟨rfl, rfl, rfl, rfl, rfl⟩
+
+/-- a request of a plain (non-shared) subscription is saved as it is -/
+theorem atGroupCursor_plain (sh : List (String × SharedGroup)) (r : DataRequest) (h : r.group = none) :
+    atGroupCursor sh r = r := by
+  unfold atGroupCursor; rw [h]; rfl
+
+/-- what is saved for a persistent session: the tracked and the parked requests, those of shared
+    subscriptions set to their group's cursor at the time the member leaves (`groupsBefore`), all then
+    rewound to the retransmission points -/
+def hdSaved (s1 : RState) (c : Conn) (groupsBefore : List (String × SharedGroup)) (inflightReqs : List DataRequest) :
+    List (String × SharedGroup) × List DataRequest :=
+  rewindRequests s1.shared (retransmissionMap c.out.inflight [])
+    ((c.tracker.requests ++ inflightReqs).map (atGroupCursor groupsBefore)) []
+
+/-- the logs of the groups whose turn passed to another member because `c` left them
+    (`s0`: the state after the optional disconnect notification) -/
+def hdMoved (s0 : RState) (id : Nat) (c : Conn) : List Nat :=
+  turnMovedLogs (datalogClean s0.datalog id).1 s0.shared c.clientId
+
+/-- the state `handle_disconnection` has built (connection removed, session saved in the
+    graveyard) when it wakes the parked members of the groups whose turn moved -/
+def hdFinal (s : RState) (id : Nat) (c : Conn) (reason : Option String) : RState :=
+  let s0 := hdNotify s c reason
+  let s1 := hdRemoved s0 id c
+  if !c.clean then
+    let rw := hdSaved s1 c s0.shared (datalogClean s0.datalog id).2
+    { s1 with shared := rw.1,
+              graveyard := ainsert c.clientId
+                (some { tracker := { c.tracker with requests := rw.2, status := .paused .busy },
+                        subscriptions := c.subscriptions,
+                        unackedPubrels := c.out.unackedPubrels }) s1.graveyard }
+  else { s1 with graveyard := ainsert c.clientId none s1.graveyard }
 
 theorem handleDisconnection_eq (s : RState) (id : Nat) (reason : Option String) :
     handleDisconnection s id reason =
       match getConn s id with
       | none => .ok s
-      | some c =>
-        let s0 := hdNotify s c reason
-        let s1 := hdRemoved s0 id c
-        if !c.clean then
-          let rw := hdSaved s1 c (datalogClean s0.datalog id).2
-          .ok { s1 with shared := rw.1,
-                        graveyard := ainsert c.clientId
-                          (some { tracker := { c.tracker with requests := rw.2, status := .paused .busy },
-                                  subscriptions := c.subscriptions,
-                                  unackedPubrels := c.out.unackedPubrels }) s1.graveyard }
-        else .ok { s1 with graveyard := ainsert c.clientId none s1.graveyard } := by
-  unfold handleDisconnection
+      | some c => wakeParked (hdFinal s id c reason) (hdMoved (hdNotify s c reason) id c) := by
+  unfold handleDisconnection hdFinal
   cases getConn s id with
   | none => rfl
-  | some c => cases reason <;> rfl
+  | some c =>
+    cases reason <;>
+    · simp only []
+      split <;> rfl
+
+theorem hdFinal_fields (s : RState) (id : Nat) (c : Conn) (r : Option String) :
+    (hdFinal s id c r).conns = s.conns.remove id ∧ (hdFinal s id c r).lastWills = s.lastWills ∧
+    (hdFinal s id c r).config = s.config ∧
+    (hdFinal s id c r).connectionMap = aremove c.clientId s.connectionMap ∧
+    (hdFinal s id c r).ghost = s.ghost ++ [.removed id c.clientId c.clean] ∧
+    (hdFinal s id c r).links = (hdNotify s c r).links ∧
+    (hdFinal s id c r).notifications = s.notifications ∧
+    (hdFinal s id c r).datalog = (datalogClean s.datalog id).1 ∧
+    (hdFinal s id c r).turnMoved = s.turnMoved := by
+  unfold hdFinal
+  cases r <;> (simp only []; split <;> exact ⟨rfl, rfl, rfl, rfl, rfl, rfl, rfl, rfl, rfl⟩)
+
+/-! ### `wake_parked` -/
+
+/-- the state in which the requests parked on log `i` have been taken out of its waiter list -/
+def clearWaiters (s : RState) (i : Nat) (fd : FilterData) : RState :=
+  { s with datalog := { s.datalog with native := s.datalog.native.set i { fd with waiters := [] } } }
+
+theorem wakeParkedSorted_cons (s : RState) (i : Nat) (rest : List Nat) :
+    wakeParkedSorted s (i :: rest) =
+      match s.datalog.native[i]? with
+      | none => wakeParkedSorted s rest
+      | some fd =>
+        match drainNotifications (clearWaiters s i fd) fd.waiters with
+        | .error e => .error e
+        | .ok s2 => wakeParkedSorted s2 rest := by
+  rw [wakeParkedSorted]; rfl
+
+/-- whatever is kept by emptying a waiter list and by `drainNotifications` is kept by the wake-up
+    (`R`: a reflexive, transitive relation between the state before and after) -/
+theorem wakeParkedSorted_rel (R : RState → RState → Prop) (hrefl : ∀ s, R s s)
+    (htrans : ∀ a b c, R a b → R b c → R a c)
+    (hclear : ∀ s i fd, s.datalog.native[i]? = some fd → R s (clearWaiters s i fd))
+    (hdrain : ∀ s s' ns, drainNotifications s ns = .ok s' → R s s') :
+    ∀ (logs : List Nat) {s s' : RState}, wakeParkedSorted s logs = .ok s' → R s s'
+  | [], s, s', h => by
+    simp only [wakeParkedSorted, Except.ok.injEq] at h; subst h; exact hrefl s
+  | i :: rest, s, s', h => by
+    rw [wakeParkedSorted_cons] at h
+    split at h
+    · exact wakeParkedSorted_rel R hrefl htrans hclear hdrain rest h
+    · rename_i fd hfd
+      split at h
+      · simp at h
+      · rename_i s2 h2
+        exact htrans _ _ _ (htrans _ _ _ (hclear s i fd hfd) (hdrain _ _ _ h2))
+          (wakeParkedSorted_rel R hrefl htrans hclear hdrain rest h)
+
+theorem wakeParked_rel (R : RState → RState → Prop) (hrefl : ∀ s, R s s)
+    (htrans : ∀ a b c, R a b → R b c → R a c)
+    (hclear : ∀ s i fd, s.datalog.native[i]? = some fd → R s (clearWaiters s i fd))
+    (hdrain : ∀ s s' ns, drainNotifications s ns = .ok s' → R s s')
+    {s s' : RState} {logs : List Nat} (h : wakeParked s logs = .ok s') : R s s' :=
+  wakeParkedSorted_rel R hrefl htrans hclear hdrain _ h
+
+/-- same for `wakeTurnMoved`; `hreset`: forgetting the local `turn_moved` -/
+theorem wakeTurnMoved_rel (R : RState → RState → Prop) (hrefl : ∀ s, R s s)
+    (htrans : ∀ a b c, R a b → R b c → R a c)
+    (hclear : ∀ s i fd, s.datalog.native[i]? = some fd → R s (clearWaiters s i fd))
+    (hdrain : ∀ s s' ns, drainNotifications s ns = .ok s' → R s s')
+    (hreset : ∀ s : RState, R s { s with turnMoved := [] })
+    {s s' : RState} (h : wakeTurnMoved s = .ok s') : R s s' :=
+  htrans _ _ _ (hreset s) (wakeParked_rel R hrefl htrans hclear hdrain h)
+
+/-- What the wake-up (`track` + `reschedule` per parked request, after emptying waiter lists) can
+    change: trackers and the ready queue (see `Shape RT` for the connections) and the waiter lists.
+    Everything else of the state is the same. -/
+structure WakeFrame (s s' : RState) : Prop where
+  config : s'.config = s.config
+  links : s'.links = s.links
+  graveyard : s'.graveyard = s.graveyard
+  cmap : s'.connectionMap = s.connectionMap
+  smap : s'.subscriptionMap = s.subscriptionMap
+  ntf : s'.notifications = s.notifications
+  shared : s'.shared = s.shared
+  wills : s'.lastWills = s.lastWills
+  oracle : s'.oracle = s.oracle
+  ghost : s'.ghost = s.ghost
+  turnMoved : s'.turnMoved = s.turnMoved
+  fidx : s'.datalog.filterIndexes = s.datalog.filterIndexes
+  retained : s'.datalog.retained = s.datalog.retained
+  pf : s'.datalog.publishFilters = s.datalog.publishFilters
+  nlen : s'.datalog.native.length = s.datalog.native.length
+  logs : ∀ i : Nat, s'.datalog.native[i]?.map (fun (fd : FilterData) => (fd.filter, fd.log)) =
+              s.datalog.native[i]?.map (fun (fd : FilterData) => (fd.filter, fd.log))
+
+theorem WakeFrame.refl (s : RState) : WakeFrame s s :=
+  ⟨rfl, rfl, rfl, rfl, rfl, rfl, rfl, rfl, rfl, rfl, rfl, rfl, rfl, rfl, rfl, fun _ => rfl⟩
+
+theorem WakeFrame.trans {a b c : RState} (h1 : WakeFrame a b) (h2 : WakeFrame b c) : WakeFrame a c :=
+  ⟨h2.config.trans h1.config, h2.links.trans h1.links, h2.graveyard.trans h1.graveyard, h2.cmap.trans h1.cmap,
+   h2.smap.trans h1.smap, h2.ntf.trans h1.ntf, h2.shared.trans h1.shared, h2.wills.trans h1.wills,
+   h2.oracle.trans h1.oracle, h2.ghost.trans h1.ghost, h2.turnMoved.trans h1.turnMoved, h2.fidx.trans h1.fidx,
+   h2.retained.trans h1.retained, h2.pf.trans h1.pf, h2.nlen.trans h1.nlen, fun i => (h2.logs i).trans (h1.logs i)⟩
+
+theorem track_wakeFrame {s s' : RState} {id : Nat} {r : DataRequest} (h : track s id r = .ok s') : WakeFrame s s' := by
+  unfold track at h
+  split at h
+  · simp at h
+  · simp only [Except.ok.injEq] at h; subst h
+    exact ⟨rfl, rfl, rfl, rfl, rfl, rfl, rfl, rfl, rfl, rfl, rfl, rfl, rfl, rfl, rfl, fun _ => rfl⟩
+
+theorem reschedule_wakeFrame {s s' : RState} {id : Nat} {r : SchedReason} (h : reschedule s id r = .ok s') :
+    WakeFrame s s' := by
+  unfold reschedule at h
+  split at h
+  · simp at h
+  · split at h
+    · simp at h
+    · simp only [Except.ok.injEq] at h; subst h
+      split <;> exact ⟨rfl, rfl, rfl, rfl, rfl, rfl, rfl, rfl, rfl, rfl, rfl, rfl, rfl, rfl, rfl, fun _ => rfl⟩
+
+theorem drainNotifications_wakeFrame : ∀ (ns : List (Nat × DataRequest)) {s s' : RState},
+    drainNotifications s ns = .ok s' → WakeFrame s s'
+  | [], s, s', h => by simp only [drainNotifications, Except.ok.injEq] at h; subst h; exact WakeFrame.refl _
+  | (id, r) :: rest, s, s', h => by
+    simp only [drainNotifications] at h
+    split at h
+    · simp at h
+    · rename_i s1 h1
+      split at h
+      · simp at h
+      · rename_i s2 h2
+        exact ((track_wakeFrame h1).trans (reschedule_wakeFrame h2)).trans (drainNotifications_wakeFrame rest h)
+
+theorem clearWaiters_wakeFrame {s : RState} {i : Nat} {fd : FilterData} (h : s.datalog.native[i]? = some fd) :
+    WakeFrame s (clearWaiters s i fd) := by
+  refine ⟨rfl, rfl, rfl, rfl, rfl, rfl, rfl, rfl, rfl, rfl, rfl, rfl, rfl, rfl, ?_, fun j => ?_⟩
+  · simp [clearWaiters]
+  · show (s.datalog.native.set i { fd with waiters := [] })[j]?.map _ = _
+    rw [List.getElem?_set]
+    split
+    · rename_i e; subst e
+      split
+      · simp [h]
+      · rename_i hlt
+        have : s.datalog.native[i]? = none := List.getElem?_eq_none (by omega)
+        rw [this] at h; simp at h
+    · rfl
+
+theorem wakeParked_wakeFrame {s s' : RState} {logs : List Nat} (h : wakeParked s logs = .ok s') : WakeFrame s s' :=
+  wakeParked_rel WakeFrame WakeFrame.refl (fun _ _ _ => WakeFrame.trans)
+    (fun _ _ _ h => clearWaiters_wakeFrame h) (fun _ _ ns h => drainNotifications_wakeFrame ns h) h
+
+/-- `wakeTurnMoved`: the same frame, from the state whose `turn_moved` has been reset -/
+theorem wakeTurnMoved_wakeFrame {s s' : RState} (h : wakeTurnMoved s = .ok s') :
+    WakeFrame { s with turnMoved := [] } s' := wakeParked_wakeFrame h
+
+theorem wakeTurnMoved_turnMoved {s s' : RState} (h : wakeTurnMoved s = .ok s') : s'.turnMoved = [] :=
+  (wakeTurnMoved_wakeFrame h).turnMoved
+
+/-- `noteTurn` changes at most the local `turn_moved` -/
+theorem noteTurn_eq (s0 s1 : RState) (req : DataRequest) :
+    ∃ tm, noteTurn s0 s1 req = { s1 with turnMoved := tm } := by
+  unfold noteTurn
+  split
+  · split
+    · exact ⟨_, rfl⟩
+    · exact ⟨s1.turnMoved, rfl⟩
+  · exact ⟨s1.turnMoved, rfl⟩
 
 /-! ### `handle_new_connection` -/
 
@@ -322,7 +531,9 @@ def hnRegister (s : RState) (spec : ConnectSpec) : M RState :=
   let s2 := hnWill { s with graveyard := aremove spec.clientId s.graveyard } spec
   let conn := hnConn spec restored
   let ins := s2.conns.insert conn
-  let s3 : RState := { s2 with conns := ins.1, connectionMap := ainsert spec.clientId ins.2 s2.connectionMap }
+  let s3 : RState := { s2 with conns := ins.1, connectionMap := ainsert spec.clientId ins.2 s2.connectionMap,
+                               subscriptionMap := (hnSubs restored).foldl (fun m f => subscriptionMapAdd m f ins.2) s2.subscriptionMap,
+                               shared := rejoinGroups s2.config.strategy spec.clientId (hnTracker spec restored).requests s2.shared }
   if !trackerNoDup (hnTracker spec restored) then .error (.panic "debug_assert check_tracker_duplicates (new connection)") else
   let acks := hnAcks spec ins.2 prev restored
   let s4 := setConn s3 ins.2 { conn with acks := { committed := acks } }
@@ -351,7 +562,9 @@ theorem hnRegister_eq (s : RState) (spec : ConnectSpec) :
         brokerAliases := if spec.aliasMax > 0 then some (BrokerAliases.new spec.aliasMax) else none,
         out := { unackedPubrels := pending }, tracker := tracker }
     let (slab, id) := s.conns.insert conn
+    let s := { s with subscriptionMap := subs.foldl (fun m f => subscriptionMapAdd m f id) s.subscriptionMap }
     let s := { s with conns := slab, connectionMap := ainsert spec.clientId id s.connectionMap }
+    let s := { s with shared := rejoinGroups s.config.strategy spec.clientId tracker.requests s.shared }
     if !trackerNoDup tracker then .error (.panic "debug_assert check_tracker_duplicates (new connection)") else
     let acks := [Ack.connack id (!spec.clean && previousSession)] ++ pending.map Ack.pubrel
     let s := setConn s id { conn with acks := { committed := acks } }
@@ -425,5 +638,185 @@ theorem handlePacket_publish (s : RState) (id : Nat) (cid : String) (p : Pub) (f
         | .ok (s, none) => .ok (s, { fl with newData := true })
         | .ok (s, some (.disconnect r)) => .ok (s, { fl with disconnect := true, reason := some r, stop := true })
         | .ok (s, some .other) => .ok (s, { fl with disconnect := true, stop := true }) := rfl
+
+/-! ### kernel-executable form of the functions that wake parked group members
+
+`wake_parked` sorts the logs with `List.mergeSort`, which is defined by well-founded recursion and
+therefore does not reduce in the kernel: `rfl` / `decide` cannot evaluate `step` any more wherever
+a wake-up is reached. The `…X` functions below are the model's functions with the sort replaced by
+an insertion sort (structural recursion); each is proved EQUAL to the model's function, so closed
+examples are evaluated on the `X` form and transferred (`run_eq_runX` in Reach.lean). Nothing else
+uses them. -/
+
+/-- insertion into a sorted list (kernel-reducible, unlike `List.mergeSort`) -/
+def insSorted (a : Nat) : List Nat → List Nat
+  | [] => [a]
+  | b :: t => if a ≤ b then a :: b :: t else b :: insSorted a t
+
+def isort : List Nat → List Nat
+  | [] => []
+  | a :: l => insSorted a (isort l)
+
+theorem insSorted_perm (a : Nat) : ∀ l, (insSorted a l).Perm (a :: l)
+  | [] => .refl _
+  | b :: t => by
+    simp only [insSorted]
+    split
+    · exact .refl _
+    · exact ((insSorted_perm a t).cons b).trans (List.Perm.swap a b t)
+
+theorem isort_perm : ∀ l, (isort l).Perm l
+  | [] => .refl _
+  | a :: l => (insSorted_perm a (isort l)).trans ((isort_perm l).cons a)
+
+theorem insSorted_pairwise (a : Nat) : ∀ l, l.Pairwise (fun x y => decide (x ≤ y) = true) →
+    (insSorted a l).Pairwise (fun x y => decide (x ≤ y) = true)
+  | [], _ => by simp [insSorted]
+  | b :: t, h => by
+    simp only [insSorted]
+    split
+    · rename_i hab
+      refine List.Pairwise.cons (fun c hc => ?_) h
+      rcases List.mem_cons.mp hc with rfl | hc
+      · simpa using hab
+      · have := List.rel_of_pairwise_cons h hc
+        simp only [decide_eq_true_eq] at this ⊢; omega
+    · rename_i hab
+      refine List.Pairwise.cons (fun c hc => ?_) (insSorted_pairwise a t h.of_cons)
+      rcases List.mem_cons.mp ((insSorted_perm a t).mem_iff.mp hc) with rfl | hc
+      · simp only [decide_eq_true_eq]; omega
+      · exact List.rel_of_pairwise_cons h hc
+
+theorem isort_pairwise : ∀ l, (isort l).Pairwise (fun x y => decide (x ≤ y) = true)
+  | [] => List.Pairwise.nil
+  | a :: l => insSorted_pairwise a _ (isort_pairwise l)
+
+theorem mergeSort_eq_isort (l : List Nat) : l.mergeSort (fun a b => a ≤ b) = isort l := by
+  apply List.Perm.eq_of_pairwise (le := fun x y => decide (x ≤ y) = true)
+  · intro a b _ _ h1 h2
+    simp only [decide_eq_true_eq] at h1 h2; omega
+  · exact List.pairwise_mergeSort (fun a b c h1 h2 => by simp only [decide_eq_true_eq] at *; omega)
+      (fun a b => by simp only [Bool.or_eq_true, decide_eq_true_eq]; omega) l
+  · exact isort_pairwise l
+  · exact (List.mergeSort_perm l _).trans (isort_perm l).symm
+
+
+def wakeParkedX (s : RState) (logs : List Nat) : M RState := wakeParkedSorted s (isort logs).eraseDups
+def wakeTurnMovedX (s : RState) : M RState := wakeParkedX { s with turnMoved := [] } s.turnMoved
+
+theorem wakeParked_eqX (s : RState) (logs : List Nat) : wakeParked s logs = wakeParkedX s logs := by
+  unfold wakeParked wakeParkedX; rw [mergeSort_eq_isort]
+
+theorem wakeTurnMoved_eqX (s : RState) : wakeTurnMoved s = wakeTurnMovedX s := by
+  unfold wakeTurnMoved wakeTurnMovedX; rw [wakeParked_eqX]
+
+def handleDisconnectionX (s : RState) (id : Nat) (reason : Option String) : M RState :=
+  match getConn s id with
+  | none => .ok s
+  | some c => wakeParkedX (hdFinal s id c reason) (hdMoved (hdNotify s c reason) id c)
+
+theorem handleDisconnection_eqX (s : RState) (id : Nat) (reason : Option String) :
+    handleDisconnection s id reason = handleDisconnectionX s id reason := by
+  rw [handleDisconnection_eq]; unfold handleDisconnectionX
+  split
+  · rfl
+  · rw [wakeParked_eqX]
+
+def handleNewConnectionX (s : RState) (spec : ConnectSpec) : M RState :=
+  let s0 := setLink s spec.link {}
+  if !validClientId spec.clientId then .ok (s0.g (.notRegistered spec.link)) else
+  match (match alookup spec.clientId s0.connectionMap with
+         | some old => handleDisconnectionX s0 old none
+         | none => .ok s0) with
+  | .error e => .error e
+  | .ok s1 =>
+    if s1.conns.len ≥ s1.config.maxConnections then .ok (s1.g (.notRegistered spec.link)) else
+    hnRegister s1 spec
+
+theorem handleNewConnection_eqX (s : RState) (spec : ConnectSpec) :
+    handleNewConnection s spec = handleNewConnectionX s spec := by
+  rw [handleNewConnection_eq]; unfold handleNewConnectionX hnTakeover
+  simp only [handleDisconnection_eqX]
+
+def handleDevicePayloadX (s : RState) (id : Nat) : M RState :=
+  match getConn s id with
+  | none => .ok s
+  | some c =>
+    let lb := getLink s c.link
+    let packets := lb.ibuf
+    let s := setLink s c.link { lb with ibuf := [] }
+    match handlePackets s id c.clientId packets {} with
+    | .error e => .error e
+    | .ok (s, fl) =>
+      let r1 := if fl.forceAck then reschedule s id .freshData else .ok s
+      match r1 with
+      | .error e => .error e
+      | .ok s =>
+        let r2 := if fl.newData then drainNotifications { s with notifications := [] } s.notifications else .ok s
+        match r2 with
+        | .error e => .error e
+        | .ok s =>
+          match wakeTurnMovedX s with
+          | .error e => .error e
+          | .ok s => if fl.disconnect then handleDisconnectionX s id fl.reason else .ok s
+
+theorem handleDevicePayload_eqX (s : RState) (id : Nat) : handleDevicePayload s id = handleDevicePayloadX s id := by
+  unfold handleDevicePayload handleDevicePayloadX
+  simp only [wakeTurnMoved_eqX, handleDisconnection_eqX]
+  rfl
+
+def consumeX (s : RState) : M (RState × Bool) :=
+  match s.readyqueue.dropWhile (fun id => (s.conns.get? id).isNone) with
+  | [] => .ok ({ s with readyqueue := [] }, false)
+  | id :: rq =>
+    let s := { s with readyqueue := rq }
+    match getConn s id with
+    | none => .ok (s, false)
+    | some c =>
+      let requests := c.tracker.requests
+      let s := setConn s id { c with tracker := { c.tracker with requests := [] } }
+      let s := { s with readyqueue := s.readyqueue ++ [id] }
+      let s := ackDeviceData s id
+      match consumeLoop s id MAX_SCHEDULE_ITERATIONS requests [] with
+      | .error e => .error e
+      | .ok s =>
+        match wakeTurnMovedX s with
+        | .error e => .error e
+        | .ok s => .ok (s, true)
+
+theorem consume_eqX (s : RState) : consume s = consumeX s := by
+  unfold consume consumeX
+  simp only [wakeTurnMoved_eqX]
+  rfl
+
+def eventsX (s : RState) (id : Nat) : Event → M RState
+  | .deviceData => handleDevicePayloadX s id
+  | .ready => if (getConn s id).isSome then reschedule s id .ready else .ok s
+  | .disconnect => handleDisconnectionX s id none
+  | .publishWill c => handleLastWill s c
+  | .shadow f => handleShadow s id f
+  | .sendMeters => .ok s
+  | .sendAlerts => .ok s
+
+theorem events_eqX (s : RState) (id : Nat) (ev : Event) : events s id ev = eventsX s id ev := by
+  cases ev <;> simp only [events, eventsX, handleDevicePayload_eqX, handleDisconnection_eqX]
+
+def stepX (s : RState) : Op → M (RState × Out)
+  | .connect spec =>
+    match handleNewConnectionX s spec with
+    | .error e => .error e
+    | .ok s => .ok (s, .ok)
+  | .event id e =>
+    match eventsX s id e with
+    | .error e => .error e
+    | .ok s => .ok (s, .ok)
+  | .consume =>
+    match consumeX s with
+    | .error e => .error e
+    | .ok (s, b) => .ok (s, .consumed b)
+  | op => step s op
+
+theorem step_eqX (s : RState) (op : Op) : step s op = stepX s op := by
+  cases op <;> simp only [step, stepX, handleNewConnection_eqX, events_eqX, consume_eqX] <;> rfl
 
 end Router
